@@ -26,6 +26,8 @@ class Task:
         self.blocked_on = None
         self.npoints = 0
         self.observed = []  # values this task has read from shared objects (part of the state key)
+        self.pool = None  # VPool the task was submitted to (None: the parent)
+        self.started = False
         self.thread = threading.Thread(target=self._run, daemon=True)
 
     def _run(self):
@@ -69,8 +71,17 @@ class Sched:
         if self.abort:
             raise SystemExit
 
+    def _has_worker(self, t):
+        """a pool of n processes runs at most n tasks at a time and hands waiting tasks to free processes in submission order"""
+        if t.pool is None or t.started or not t.pool.n:
+            return True
+        mates = t.pool.ts
+        free = t.pool.n - sum(1 for u in mates if u.started and not u.done)
+        ahead = sum(1 for u in mates[: mates.index(t)] if not u.started)
+        return ahead < free  # dispatched already (its first visible step may come in any order) or still waiting for a process
+
     def enabled(self):
-        return [t for t in self.tasks if not t.done and (t.blocked_on is None or t.blocked_on())]
+        return [t for t in self.tasks if not t.done and self._has_worker(t) and (t.blocked_on is None or t.blocked_on())]
 
     def run(self, main_fn, stop_after=None):
         main = self.spawn(main_fn, (), "main")
@@ -91,6 +102,7 @@ class Sched:
                 self._kill()
                 raise RuntimeError("replay divergence: choice %d of %d enabled at step %d" % (c, len(en), step))
             t = en[c]
+            t.started = True
             self.trace.append(t.name)
             self.current = t
             step += 1
@@ -175,6 +187,7 @@ class VPool:
 
     def apply_async(self, fn, args=(), kwds=None):
         t = self.s.spawn(fn, args, "T%d" % len(self.ts))
+        t.pool = self
         self.ts.append(t)
         self.s.point()
         return VResult(self.s, t)
